@@ -42,6 +42,10 @@ pub struct Sched {
     /// reads, seeks and flushes keep working
     #[serde(default)]
     pub zero_write_from: Option<u64>,
+    /// the stream is a fixed-size sink: nothing can be written at or beyond this byte position (writes are cut
+    /// short at the limit and return Ok(0) once it is reached), like `Cursor<&mut [u8]>` or a full device
+    #[serde(default)]
+    pub capacity: Option<u64>,
 }
 
 impl Sched {
@@ -167,7 +171,14 @@ impl Core {
             return Ok(0);
         }
         let cap = self.cap();
-        let n = buf.len().min(cap);
+        let mut n = buf.len().min(cap);
+        if let Some(limit) = self.sched.capacity {
+            let room = limit.saturating_sub(self.pos) as usize;
+            if room < n {
+                n = room;
+                self.faults_returned += 1;
+            }
+        }
         if n < buf.len() {
             self.shortened += 1;
         }
